@@ -1,8 +1,11 @@
 import FatVerif.Model.PureMain
-/-! Driver `fatmodel`: `fatmodel pure` (probe lines) | `fatmodel hist …` (operation histories). -/
+import FatVerif.Model.HistMain
+import FatVerif.Model.Oracles
+/-! Driver `fatmodel`: `fatmodel pure` (probe lines) | `fatmodel hist --prop Cxx --proj <api|image|writes|calls>`. -/
 def main (args : List String) : IO UInt32 := do
   match args with
   | "pure" :: _ => FatVerif.PureMain.run
+  | "hist" :: rest => FatVerif.HistMain.run rest FatVerif.Oracles.oracle
   | _ =>
-    IO.eprintln "usage: fatmodel pure | fatmodel hist --prop Cxx"
+    IO.eprintln "usage: fatmodel pure | fatmodel hist --prop Cxx --proj <api|image|writes|calls> [--upper file]"
     return 2
